@@ -25,20 +25,23 @@ RULE = ("scenario = URL assembled from scheme x host form (name, upper-case name
         "path x query; all malformed variants.  non-trivial = more than one address, a failing address, a non-default "
         "URL part or a malformed URL; distinct = (scheme, host form, port, path class, query class, outcome pattern, "
         "sockopt?, timeout?)")
-ASSUMPTIONS = ["after an 'other error' (timeout, EHOSTUNREACH, EACCES) both aborting and continuing are accepted",
+ASSUMPTIONS = ["after an 'other error' (timeout, EACCES) both aborting and continuing are accepted",
                "wss scenarios disable certificate verification (C11 covers verification)"]
 
 HOSTFORMS = {"name": ("multi.sim.test", "multi.sim.test"), "upper": ("MULTI.Sim.Test", "multi.sim.test"),
              "userinfo": ("user:pw@multi.sim.test", "multi.sim.test"), "ipv4": ("10.5.0.1", "10.5.0.1"),
              "ipv6": ("[2001:db8:5::1]", "2001:db8:5::1")}
 PORTS = (None, 1, 80, 443, 8080, 65535)
-PATHS = ("", "/", "/chat", "/a/b", "/p;x", "/p;x=1/q", "/%7Euser/%20", "/a;b;c")
+PATHS = ("", "/", "/chat", "/a/b", "/p;x", "/p;x=1/q", "/%7Euser/%20", "/a;b;c", "/p;", "/;", "/a;b/c;")
 QUERIES = (None, "y", "a=1&b=2", "q=%3F")
 MALFORMED = ("multi.sim.test/p", "ws:/multi.sim.test", "ws:multi.sim.test", "ws:///p", "http://multi.sim.test",
              "https://multi.sim.test/", "ftp://multi.sim.test", "wsx://multi.sim.test", "://multi.sim.test", "ws://",
-             "ws://:80/", "", "ws", "WS//multi.sim.test")
-OUTCOMES = ("accept", "refused", "unreachable", "other")
-OTHER = ("timeout", "hostunreach", "perm")
+             "ws://:80/", "", "ws", "WS//multi.sim.test",
+             # a second URL nested behind the scheme: scheme ws/wss, no "//", hence no host of its own
+             "ws:wss://multi.sim.test/x", "ws:http://multi.sim.test/x", "wss:ws://multi.sim.test:81/x", "ws:foo://multi.sim.test/",
+             "ws:ws://multi.sim.test/x")
+OUTCOMES = ("accept", "refused", "unreachable", "hostunreach", "other")
+OTHER = ("timeout", "perm")  # 'hostunreach' (EHOSTUNREACH, "no route to host") is an unreachable address like ENETUNREACH
 
 
 def addr_for(i, fam):
@@ -74,7 +77,7 @@ def expand(item, seed):
     if k == "patterns":
         for pat in itertools.product(OUTCOMES, repeat=item["n"]):
             for fams in ((4,) * 4, (6, 4, 6, 4)):
-                addrs = [{"fam": fams[i], "outcome": o if o != "other" else OTHER[i % 3]} for i, o in enumerate(pat)]
+                addrs = [{"fam": fams[i], "outcome": o if o != "other" else OTHER[i % 2]} for i, o in enumerate(pat)]
                 yield {"scheme": "ws", "host": "name", "port": None, "path": "/", "query": None, "addrs": addrs,
                        "sockopt": [[1, 15, 1]] if len(pat) % 2 else [], "timeout": 3 * S if len(pat) != 2 else None, "seed": 1,
                        "stdlib_default_timeout": S // 4 if len(pat) == 2 else None}
@@ -122,7 +125,7 @@ def run(sc, choices=None):
         if not 1 <= len(addrs) <= 4:
             raise InvalidScenario("addrs")
         for a in addrs:
-            if a["fam"] not in (4, 6) or a["outcome"] not in ("accept", "refused", "unreachable") + OTHER:
+            if a["fam"] not in (4, 6) or a["outcome"] not in ("accept", "refused", "unreachable", "hostunreach") + OTHER:
                 raise InvalidScenario("addr")
         sockopt = [tuple(int(x) for x in o) for o in sc.get("sockopt", ())]
         T = sc.get("timeout")
